@@ -22,7 +22,7 @@ RULE = ("a tree (directory input, recursive) or a lone file + settings (prefix, 
         "all runs (paths written by several inputs, i.e. the shared top index.rst, are excluded and counted). "
         "Non-trivial: the history has >=2 different variation kinds, one of them moved tree / relative spelling / other "
         "inputs before; distinct by SHA-1 of the case")
-RULE_MORE = 'location-independent exclude patterns and follow_symlinks with an aliased subdirectory as part of the settings.'
+RULE_MORE = 'location-independent exclude patterns and follow_symlinks with an aliased subdirectory as part of the settings. Later: whitespace-twin prefill; location through a symlinked parent and below directories with regex metacharacters; an undocumented twin of a tree file documented first.'
 ASSUMPTIONS = ["other inputs use names disjoint from the input under test so that every output path has one producer",
                "hash-seed runs use the real interpreter as a subprocess; all other runs are in-process"]
 BUDGET = {"quick": {"shards": 8, "examples": 50}, "thorough": {"shards": 16, "examples": 800}}
